@@ -2,6 +2,7 @@
 package rules
 
 import (
+	"strings"
 	"sort"
 	"sync"
 
@@ -71,4 +72,26 @@ func (pr *Property) RunLocked(p *core.Program, r *core.Report) {
 	runMu.Lock()
 	defer runMu.Unlock()
 	pr.Run(p, r)
+}
+
+// borrowSelected runs another property's whole rule set on a scratch report and re-issues, under
+// rule id `as`, the obligations `want` selects (keyed "[<original rule>] construct" like Report.Borrow).
+// Used where the owner's rules are not split into callable parts.
+func borrowSelected(p *core.Program, r *core.Report, run func(*core.Program, *core.Report), as string, want func(o core.Obligation) bool) {
+	tmp := core.NewReport(r.Property, p)
+	run(p, tmp)
+	for _, o := range tmp.Obs {
+		if strings.HasPrefix(o.Construct, "[") || !want(o) {
+			continue
+		}
+		construct := "[" + o.Rule + "] " + o.Construct
+		switch o.Status {
+		case core.Discharged:
+			r.Check(true, as, o.Func, construct, o.Pos, o.Detail)
+		case core.Violated:
+			r.Check(false, as, o.Func, construct, o.Pos, o.Detail)
+		default:
+			r.Unrecognised(as, o.Func, construct, o.Pos, o.Detail)
+		}
+	}
 }
